@@ -649,6 +649,21 @@ def check_C12(ctx):
     from props import judge_sentences
     st_small = judge_sentences(ctx, small, res_small, "C12")
     ctx.stream("small scope: required env-backed options and --", 0, **st_small)
+    # groups with environment-backed members on lines where the scan for a member STOPS at a token that another member
+    # consumes later (folded tokens carrying '=', a dash in a cluster, a valued option spelled without value): D8
+    gd8 = [gen.mkopt("strings", "o", env="VE_O", sbu=True), gen.mkopt("custom", "a", custom=dict(gen.CUSTOM_FLAG), env="VE_A", sbu=True),
+           gen.mkopt("custom", "b", custom=dict(gen.CUSTOM_FLAG), sbu=True), gen.mkarg("strings", "X", sbu=True)]
+    t8 = ["-aa=v", "-o=7", "-a", "-ab=1", "-o", "7", "-ba=x", "-ao=1", "-b", "-aab", "x", "-a=true", "-oa"]
+    for sp in ("-oa", "[-oa]", "[OPTIONS]", "-oab [X]", "[-ab] [-o]", "(-o | -a | -b)...", "[-oa] X...", "[-ob]... [-a]"):
+        lines8 = [list(t) for n in (1, 2, 3) for t in itertools.product(t8, repeat=n)]
+        if len(lines8) > ctx.scale(300, 3000):
+            lines8 = rng.sample(lines8, ctx.scale(300, 3000))
+        for argv in lines8:
+            start = len(cases)
+            for env in ({}, {"VE_O": "ev"}, {"VE_A": "true"}, {"VE_O": "ev", "VE_A": "true"}):
+                cases.append({"op": "run", "env": env, "version": None, "root": gen.mkcmd("app", decls=copy.deepcopy(gd8), spec=sp, policy=0),
+                              "argv": argv, "_written": None})
+            groups.append((start, len(cases)))
     res = correspond(ctx, cases, ["outcome", "trace", "values"], "env subsets")
     pairs = 0
     for s, e in groups:
